@@ -147,10 +147,18 @@ ARGNAME = {M.INT: "a", M.FLOAT: "b", M.vec("int", 2): "c", M.vec("float", 2): "d
 ARGVAL = {"a": 3, "b": 2.5, "c": [1, 2], "d": [0.5, 1.5]}
 
 
+def _flags(x):
+    """case[2] is either `caller_first` or (caller_first, index of the one overload that carries `export`)"""
+    if isinstance(x, tuple):
+        return bool(x[0]), x[1]
+    return bool(x), None
+
+
 def e2e_source(sigs, args, caller_first=False):
+    caller_first, exported = _flags(caller_first)
     decls = []
     for k, s in enumerate(sigs):
-        decls.append("function p ( %s ) -> int { return %d ; }" % (
+        decls.append("%sfunction p ( %s ) -> int { return %d ; }" % ("export " if k == exported else "",
             " , ".join("%s q%d" % (M.tname(t), i) for i, t in enumerate(s)), k + 1))
     caller = ("export function f ( int a , float b , int2 c , float2 d ) -> int { return p ( %s ) ; }" %
               " , ".join(ARGNAME[a] for a in args))
@@ -215,12 +223,19 @@ def e2e_case(ctx, case, src=None, linked_with=(), case_obj=None):
     fn = c.ir.Functions["f"]
     call = [i for i in fn.Instructions if type(i).__name__ == "CallInstruction"]
     want_name = "@p->int`%s" % ",".join(M.tname(t) for t in sigs[want])
+    if _flags(caller_first)[1] == want:
+        want_name = "p"   # the exported overload keeps the plain name
+        ctx.label("e2e-call-to-the-exported-overload")
     if not call or call[-1].Function != want_name:
         ctx.fail("e2e|wrong-overload", "call lowered to %s, statement gives %s\n%s" % (
             call[-1].Function if call else None, want_name, src), case)
         return
     if any(a != p and a[0] == "v" for a, p in zip(args, sigs[want])):
         ctx.label("e2e-static-only(vector conversion)")
+        return
+    if src is not None and len(set(sigs)) != len(sigs):
+        # the same signature defined on both sides of the split: linking the two modules is a duplicate definition
+        ctx.label("e2e-static-only(duplicate definition across modules)")
         return
     program = adapter.link(list(linked_with) + [c.ir])
     vm = adapter.new_vm(program)
@@ -236,7 +251,7 @@ def e2e_case(ctx, case, src=None, linked_with=(), case_obj=None):
 @st.composite
 def e2e_strategy(draw):
     ty = st.sampled_from(U_E2E)
-    nargs = draw(st.integers(0, 2))
+    nargs = draw(st.sampled_from([0, 1, 1, 2, 2, 3]))
     args = tuple(draw(ty) for _ in range(nargs))
     n = draw(st.integers(1, 3))
     sigs = []
@@ -255,10 +270,11 @@ def e2e_strategy(draw):
                     s.append(draw(ty))
             s = tuple(s)
         else:
-            s = tuple(draw(ty) for _ in range(draw(st.integers(0, 2))))
-        if s not in sigs:
-            sigs.append(s)
-    return (tuple(sigs), args, draw(st.booleans()))
+            s = tuple(draw(ty) for _ in range(draw(st.integers(0, 3))))
+        if s not in sigs or (len(sigs) < 3 and draw(st.integers(0, 11)) == 0):
+            sigs.append(s)   # rarely: two overloads with identical parameter types
+    exported = draw(st.sampled_from([None, None, 0, len(sigs) - 1]))
+    return (tuple(sigs), args, (draw(st.booleans()), exported))
 
 
 def run(R):
